@@ -1,3 +1,5 @@
+//go:build !passthrough
+
 // Package simrt is the deterministic scheduler at the centre of the simulator.
 //
 // A World runs application code as tasks. A task is a real goroutine that runs
